@@ -60,6 +60,13 @@ theorem clear_removes_all (r : Registry) (name : Str) :
 theorem dev_off_stops_tracking (r : Registry) : (r.setDevMode false).sources = [] ∧ (r.setDevMode false).dev = false := by
   simp [Registry.setDevMode]
 
+/-- … and turning it on again does not resume it: after an off/on round trip no name is tracked, so every name renders
+    the template compiled at its registration (`after_round_trip_registered_copy_is_used`) until it is registered from a file again -/
+theorem dev_round_trip_does_not_resume_tracking (r : Registry) :
+    ((r.setDevMode false).setDevMode true).sources = [] ∧ ((r.setDevMode false).setDevMode true).dev = true ∧
+    ((r.setDevMode false).setDevMode true).templates = r.templates := by
+  simp [Registry.setDevMode]
+
 /-- sources are recorded only in dev mode: with dev mode off the content at registration is used -/
 theorem file_registration_tracks_iff_dev (r r' : Registry) (fs : FS) (name path : Str)
     (h : r.registerTemplateFile fs name path = .ok r') :
@@ -112,6 +119,13 @@ theorem untracked_uses_registered (r : Registry) (fs : FS) (name : Str) (t : Tmp
     (hd : r.dev = false) (ht : assocGet r.templates name = some t) :
     r.getOrLoad fs name = .ok t := by
   simp [Registry.getOrLoad, Registry.getOrLoadOptional, hd, ht]
+
+/-- after an off/on round trip of dev mode a name that WAS tracked renders the template compiled at its registration,
+    whatever its file now says or whether it still exists -/
+theorem after_round_trip_registered_copy_is_used (r : Registry) (fs : FS) (name : Str) (t : Tmpl)
+    (ht : assocGet r.templates name = some t) :
+    ((r.setDevMode false).setDevMode true).getOrLoad fs name = .ok t := by
+  simp [Registry.getOrLoad, Registry.getOrLoadOptional, Registry.setDevMode, assocGet, ht]
 
 /-- registering a string template over a name tracked from a file STOPS tracking the file: the last
     successfully registered template wins (this failed before the repair recorded in
